@@ -83,6 +83,8 @@ type State struct {
 	Collators []CollRow   `json:"collators,omitempty"`
 	AnKeys    []AnKey     `json:"ankeys,omitempty"`
 	AnKSets   []AnKSet    `json:"anksets,omitempty"`
+	// AnKeysFirst: the access node saw the eon key broadcasts before the keyper set events
+	AnKeysFirst bool `json:"ankeysfirst,omitempty"`
 }
 
 func (s *State) Clone() *State {
